@@ -175,7 +175,10 @@ package wal
 //@ func stateTxn(s)
 //@   requires s != nil && WFS(s)
 //@   assigns s
-//@   ensures[C03.txn-pinv] result2 == nil ==> SInv(s)
+//@   -- (SInv also says that every segment kept beside a successor still holds an
+//@   -- entry, MinIndex <= MaxIndex: a segment lying wholly inside a deleted range
+//@   -- is never kept in the metadata, which is what lets its file be reclaimed)
+//@   ensures[C03.txn-pinv,C04.txn-pinv,C13.kept-segments-nonempty] result2 == nil ==> SInv(s)
 //@   ensures[C03.txn-wf] result2 == nil && result1 == nil ==> WFS(s)
 //@   ensures[C03.txn-pending-tail] result2 == nil && result1 != nil ==> PendingTail(s)
 //@   resultcontract result1 wal.postCommit(s, smget(s.segments, smmax(s.segments)))
@@ -489,7 +492,7 @@ package wal
 
 //@ -- head truncation: drop whole segments below newMin, raise the head's MinIndex
 //@ func (*WAL).truncateHeadLocked$1
-//@   props C03 C04 C13
+//@   props C03 C04 C05 C13
 //@   implements wal.stateTxn
 //@   cbinv w != nil && w.codec != nil && w.sf != nil && w.metrics != nil
 //@   requires newState.nextSegmentID < 0xfffffffffffffff0 && newState.tail.last < 0xffffffffffffff00
@@ -529,7 +532,7 @@ package wal
 //@ -- tail truncation: drop whole segments above newMax, seal the segment that
 //@ -- holds newMax at MaxIndex = newMax and start a new tail at newMax+1
 //@ func (*WAL).truncateTailLocked$1
-//@   props C03 C04 C13
+//@   props C03 C04 C05 C13
 //@   implements wal.stateTxn
 //@   cbinv w != nil && w.codec != nil && w.sf != nil && w.metrics != nil
 //@   requires Headroom(newState)
